@@ -11,7 +11,7 @@ LEVEL = "exploration"
 RULE = ("random arrays of 0-4 dims x label kind {int,float,str} x order {inc,dec,shuffled}; per dimension an index kind "
         "{scalar,list,ndarray,mask,full,empty,repeated,absent,wrong-kind,near(tol)}; tuple forms incl. Ellipsis and short tuples; "
         "every spelling (a[], take tuple/dict/axis=, .loc, .sel, .ix, .iloc, .isel, .nloc, tol=) under both 'indexing.by' values. "
-        "A class = (ndim, per-dim (kind,order,index kind), tuple form, option value, tol mode); trivial = 0-d array or all-full index")
+        "one mapping object held by the caller used for several look-ups (take, [], .loc). A class = (ndim, per-dim (kind,order,index kind), tuple form, option value, tol mode); trivial = 0-d array or all-full index")
 ANCHORS = ["bases.loc", "indexing.locate_one", "indexing.locate_many", "bases._get_indices", "bases._getitem",
            "bases._getaxes_ortho", "indexing.orthogonal_indexer", "axes.__getitem__", "bases.__getitem__"]
 # entry points the workload calls itself; the other anchors are helpers behind them (counted as evidence only)
